@@ -46,7 +46,8 @@ func c06Ops(sub bool) []string {
 	ops = append(ops,
 		"b = a", "c = [a, 0]", "a[0] = 100", "a[-1] = 101", "b[0] = 108", "a = a + [103]", "b = a + b", "a = a + 104",
 		"del(a[0])", "b = a[1:]", "b = a[0:-1]", "b = rest(a)", "func(p) { p[0] = 105; p }(a)", "x = c[0]; x[0] = 107", "b = a + {0: 5}", "a = a + {200: 1}",
-		"b = a + 7; c = a + 8", "b = {\"x\": 0} + a", "c = {0: 1} + a; c[300] = 1")
+		"b = a + 7; c = a + 8", "b = {\"x\": 0} + a", "c = {0: 1} + a; c[300] = 1",
+		"func(k) { del(a[k]) }(0)", "func() { a[1] = 109 }()", "for i = 3 { c[i] = i }", "func() { for i = 2 { b[i] = a } }()")
 	// containers whose representation is large although their length is back under the threshold
 	ops = append(ops, "a = "+c06Map(5)+"; del(a[4])", "a = {0: 1, 0: 2, 0: 3, 0: 4, 0: 5, 1: 6}", "a = "+c06Arr(12)+"; a = a[0:3]", "del(a[1]); del(a[2])")
 	if !sub {
